@@ -6,6 +6,37 @@ BASELINE = json.load(open('/root/.vp/BASELINE.json'))
 
 # property id -> (technique, level text, level note, design ref)  -- only properties with a working check
 CHECKS = {
+    "C01": (
+        "step monitor over the real interpreter: every accepted program (generated, error-injected, confusion catalogue) is driven one public step at a time under catch_unwind with a panic-site classifier",
+        "Accepted programs are produced three ways (type-directed generator, typed error injection that the checker fails to reject, a producer x consumer x context grid "
+        "of similar-but-different types) and each is executed by the repository's own CK machine under a fuel bound; any unwinding from a stuck-state site, "
+        "any panic that is not the defined arithmetic trap / legacy host I/O failure, or a bad final state is a violation. Exploration: soundness holes outside "
+        "the generator's formers and the catalogue grid are not reached.",
+        "Trusted: the panic classifier's reading of which sites are stuck states; fuel exhaustion is counted inconclusive.",
+        "DESIGN.md section 5, C01",
+    ),
+    "C02": (
+        "differential monitor: interpreter stdout + exit code vs an independent CBPV reference evaluator on generated programs, in several erasure-equivalent styles",
+        "Each generated program has unique literals and order-sensitive observations, is printed in 4-5 styles that differ only in erased structure "
+        "(annotations, let/def, field names, parentheses, tuple grouping, declaration order, telescopes, minimal vs standard Builtin signature), run through "
+        "check + link + the real interpreter, and compared byte for byte with the harness's reference evaluator. Exploration over the generated core language.",
+        "Trusted: the harness reference evaluator as a reading of call-by-push-value; the generator's construction invariant (terminating, closed, well-typed).",
+        "DESIGN.md section 5, C02",
+    ),
+    "C03": (
+        "two-class oracle over the real checker: generated well-typed programs must be Checked in every style; programs with one definite injected type error must be rejected via the normal error path; plus a hand-written sealing/existential/polymorphism catalogue",
+        "must-accept and must-reject classes only (nothing whose typability depends on inference strength): 18 kinds of injected errors at checked positions, "
+        "a grid of 28 similar-but-different types x 6 use contexts with nominal/structural expectations, sealing, existential opening/escape and kind errors. Exploration.",
+        "Trusted: E1's construction invariant for must-accept; definiteness of an injected error (closed expected type with a different head former at a checked position).",
+        "DESIGN.md section 5, C03",
+    ),
+    "C08": (
+        "invariant monitor over zydeco_utils::graph on every digraph with <=4 nodes (exhaustive) against transitive-closure SCCs, three drain protocols; language-level permutation metamorphism",
+        "Every adjacency matrix on 1..4 nodes incl. self-loops and target-only nodes is run through Kosaraju + top()/release() three ways and through obliviate/keep_only; "
+        "each frontier observation is checked against mutual-reachability components and the dependencies-first order. Exhaustive inside the 4-node bound, random to 12 nodes.",
+        "Trusted: Floyd-Warshall closure as reference; only nodes returned by top() are released.",
+        "DESIGN.md section 5, C08",
+    ),
     "C05": (
         "differential monitor: host operations called through the public machine step vs an i128/IEEE reference model; exhaustive for 8-bit operands",
         "Every numeric role is executed on the real interpreter code path and compared with an independent arithmetic model: "
